@@ -20,19 +20,38 @@ func init() {
 func noIterationCompletesWhenFailing(c *an.Ctx, key, rule string, fn *ssa.Function, guards []*an.Guard, extra map[ssa.Value]an.Abs) {
 	bad := ""
 	loops := 0
-	sites := an.RunAllFail(fn, guards, extra, false, func(r *an.Result) {
-		for _, e := range an.BackEdges(fn) {
-			body := an.LoopBlocks(e[0], e[1])
-			has := false
-			gb := an.GuardBlocks(fn, guards)
-			for b := range body {
-				if gb[b] {
-					has = true
+	// the loops around the checks, in fn or in the private helpers it enters; of nested loops (also across a call)
+	// the outermost one is the iteration over the things to be checked
+	var outer [][2]*ssa.BasicBlock
+	{
+		seen := map[[2]*ssa.BasicBlock]bool{}
+		var all [][2]*ssa.BasicBlock
+		for _, gi := range an.GuardInstrs(fn, guards) {
+			for _, e := range loopsAround(fn, gi) {
+				if !seen[e] {
+					seen[e] = true
+					all = append(all, e)
 				}
 			}
-			if !has || !outermost(fn, e) {
-				continue
+		}
+		rank := map[*ssa.Function]int{}
+		for i, g := range an.InlineReach(fn) {
+			rank[g] = i
+		}
+		best := -1
+		for _, e := range all {
+			if r := rank[e[1].Parent()]; best < 0 || r < best {
+				best = r
 			}
+		}
+		for _, e := range all {
+			if rank[e[1].Parent()] == best && outermost(e[1].Parent(), e) {
+				outer = append(outer, e)
+			}
+		}
+	}
+	sites := an.RunAllFail(fn, guards, extra, false, func(r *an.Result) {
+		for _, e := range outer {
 			loops++
 			if r.EdgeTaken(e[0], e[1]) {
 				bad = fmt.Sprintf("the loop at %s can complete an iteration although every check in it failed", c.P.Rel(loopPos(e[1])))
@@ -96,8 +115,15 @@ func runC16(c *an.Ctx) {
 	// the signer set: the map indexed by tx.Payer
 	var signerMap ssa.Value
 	payerGuard := &an.Guard{Name: "payer in signer set", FailValue: an.AFalse, MatchValue: func(v ssa.Value) bool {
+		// signers[tx.Payer] (a set: map to bool), or the presence bit of `_, ok := signers[tx.Payer]`
 		l, ok := v.(*ssa.Lookup)
-		if !ok || l.CommaOk {
+		if ex, isEx := v.(*ssa.Extract); isEx && ex.Index == 1 {
+			l, ok = ex.Tuple.(*ssa.Lookup)
+			ok = ok && l.CommaOk
+		} else if ok && l.CommaOk {
+			return false
+		}
+		if !ok {
 			return false
 		}
 		if ld, ok := l.Index.(*ssa.UnOp); ok && ld.Op == token.MUL {
@@ -131,31 +157,55 @@ func runC16(c *an.Ctx) {
 	c.Check(v.Holds && v.ActionSites >= 1, "guard-payer|checkTransactionSignatures|SignedAddr", "the signer list is published (tx.SignedAddr) only after the payer test passed", c.P.Rel(fn.Pos()), v.Witness)
 	// (2)
 	if signerMap != nil {
+		// the map under the names it has in the private helpers it is handed to; nothing else may write it (it must
+		// not escape)
+		aliases := map[ssa.Value]bool{signerMap: true}
+		esc := ""
+		entered := map[*ssa.Function]bool{}
+		for _, g := range an.InlineReach(fn) {
+			entered[g] = g != fn
+		}
+		work := []ssa.Value{signerMap}
+		for len(work) > 0 {
+			m := work[0]
+			work = work[1:]
+			if m.Referrers() == nil {
+				continue
+			}
+			for _, ref := range *m.Referrers() {
+				switch ref.(type) {
+				case *ssa.MapUpdate, *ssa.Lookup, *ssa.Range, *ssa.DebugRef:
+				default:
+					if k, ok := ref.(*ssa.Call); ok {
+						if b, isB := k.Call.Value.(*ssa.Builtin); isB && b.Name() == "len" {
+							continue
+						}
+						if callee := k.Call.StaticCallee(); callee != nil && entered[callee] {
+							for i, a := range k.Call.Args {
+								if a == m && i < len(callee.Params) && !aliases[callee.Params[i]] {
+									aliases[callee.Params[i]] = true
+									work = append(work, callee.Params[i])
+								}
+							}
+							continue
+						}
+					}
+					esc = fmt.Sprintf("%T at %s", ref, c.P.Rel(ref.Pos()))
+				}
+			}
+		}
 		upd := 0
 		v := an.Guarded(c.P, fn, vg, func(in ssa.Instruction) bool {
 			mu, ok := in.(*ssa.MapUpdate)
-			if ok && mu.Map == signerMap {
+			if ok && aliases[mu.Map] {
 				upd++
 				return true
 			}
 			return false
 		}, false)
-		c.Check(v.Holds && v.GuardSites >= 2 && v.ActionSites >= 2, "guard-verify|checkTransactionSignatures|signer-set-insert", "an address enters the signer set only after its signature(s) verified",
+		// the single-key and the multi-key verification are both followed by an insertion (which may be one shared statement)
+		c.Check(v.Holds && v.GuardSites >= 2 && v.ActionSites >= 1, "guard-verify|checkTransactionSignatures|signer-set-insert", "an address enters the signer set only after its signature(s) verified",
 			c.P.Rel(fn.Pos()), fmt.Sprintf("guards=%d inserts=%d; insert reachable with verification failing: %s", v.GuardSites, v.ActionSites, v.Witness))
-		// nothing else writes the map (it must not escape)
-		esc := ""
-		for _, ref := range *signerMap.Referrers() {
-			switch ref.(type) {
-			case *ssa.MapUpdate, *ssa.Lookup, *ssa.Range, *ssa.DebugRef:
-			default:
-				if k, ok := ref.(*ssa.Call); ok {
-					if b, isB := k.Call.Value.(*ssa.Builtin); isB && b.Name() == "len" {
-						continue
-					}
-				}
-				esc = fmt.Sprintf("%T at %s", ref, c.P.Rel(ref.Pos()))
-			}
-		}
 		c.Check(esc == "", "confine|checkTransactionSignatures|signer-set-local", "the signer set is a local map that is only inserted into, looked up, ranged over and measured", c.P.Rel(fn.Pos()), "other use: "+esc)
 	} else {
 		c.Undecide("guard-verify|checkTransactionSignatures|signer-set-insert", "signer set must be identifiable", c.P.Rel(fn.Pos()), "no map lookup keyed by tx.Payer found")
@@ -209,33 +259,56 @@ func runC16(c *an.Ctx) {
 		c.Undecide("anchor|core/types.Sig.M", "anchors must resolve", "-", "field not found")
 	}
 	// (5) data verified is tx.Hash()
-	for _, k := range an.CallsTo(fn, verify, verifyMulti) {
+	// follows the data argument back: slice of a single-assignment local / of a by-value parameter of a private
+	// helper (resolved to the argument at the helper's call) down to the call tx.Hash() on the validated transaction
+	var isTxHash func(v ssa.Value, depth int) bool
+	isTxHash = func(v ssa.Value, depth int) bool {
+		if depth > 8 {
+			return false
+		}
+		switch x := v.(type) {
+		case *ssa.Slice:
+			return isTxHash(x.X, depth+1)
+		case *ssa.Parameter:
+			if a := an.ResolveActual(fn, x); a != ssa.Value(x) {
+				return isTxHash(a, depth+1)
+			}
+		case *ssa.UnOp:
+			if x.Op == token.MUL {
+				return isTxHash(x.X, depth+1)
+			}
+		case *ssa.Alloc:
+			if p := an.SpilledParam(x); p != nil {
+				return isTxHash(p, depth+1)
+			}
+			n := 0
+			var val ssa.Value
+			for _, ref := range *x.Referrers() {
+				if st, isSt := ref.(*ssa.Store); isSt && st.Addr == ssa.Value(x) {
+					n++
+					val = st.Val
+				}
+			}
+			return n == 1 && isTxHash(val, depth+1)
+		case *ssa.Call:
+			if an.CalleeObj(&x.Call) == hashM {
+				if p, isP := an.ResolveActual(fn, recvOf(&x.Call)).(*ssa.Parameter); isP && p == fn.Params[0] {
+					return true
+				}
+			}
+		}
+		return false
+	}
+	nData := 0
+	for _, k := range an.CallsToReach(fn, verify, verifyMulti) {
 		idx := 1
 		if an.CalleeObj(k.Common()) == verifyMulti {
 			idx = 0
 		}
-		arg := argsNoRecv(k.Common())[idx]
-		ok := false
-		if sl, isS := arg.(*ssa.Slice); isS {
-			if al, isA := sl.X.(*ssa.Alloc); isA {
-				n := 0
-				for _, ref := range *al.Referrers() {
-					if st, isSt := ref.(*ssa.Store); isSt && st.Addr == al {
-						n++
-						if call, isC := st.Val.(*ssa.Call); isC && an.CalleeObj(&call.Call) == hashM {
-							if p, isP := recvOf(&call.Call).(*ssa.Parameter); isP && p == fn.Params[0] {
-								ok = true
-							}
-						}
-					}
-				}
-				if n != 1 {
-					ok = false
-				}
-			}
-		}
-		c.Check(ok, "same-subject|checkTransactionSignatures|"+an.CalleeObj(k.Common()).Name()+"-data", "the signed data passed to verification is tx.Hash() of the transaction being validated", c.P.Rel(k.Pos()), "data argument is not the (single-assignment) result of tx.Hash()")
+		nData++
+		c.Check(isTxHash(argsNoRecv(k.Common())[idx], 0), "same-subject|checkTransactionSignatures|"+an.CalleeObj(k.Common()).Name()+"-data", "the signed data passed to verification is tx.Hash() of the transaction being validated", c.P.Rel(k.Pos()), "data argument is not the (single-assignment) result of tx.Hash()")
 	}
+	c.RequireMin("verification calls whose data argument is traced to tx.Hash()", nData, 2)
 	// (6) VerifyMultiSignature
 	if vm := mustFunc(c, "core/signature.VerifyMultiSignature"); vm != nil {
 		sVerify := mustObj(c, "github.com/ontio/ontology-crypto/signature.Verify")
@@ -261,7 +334,7 @@ func runC16(c *an.Ctx) {
 				if !isIdx {
 					return false
 				}
-				_, isMk := ia.X.(*ssa.MakeSlice)
+				_, isMk := an.ResolveActual(vm, ia.X).(*ssa.MakeSlice)
 				return isMk
 			}}
 			v = an.Guarded(c.P, vm, []*an.Guard{maskSkip}, func(in ssa.Instruction) bool { return isCallTo(in, sVerify) }, false)
